@@ -382,7 +382,7 @@ def search(pool, tier: str, seed: int, deadline: float, agg: Agg) -> None:
     tp = tpcds_inputs()
     if tier == "quick":  # a third of the (heavy) TPC-DS queries per seed
         tp = [x for i, x in enumerate(tp) if (i + seed) % 3 == 0]
-    inputs = corpus_inputs() + tp + generated_inputs(seed, {"quick": 300, "thorough": 3000}[tier])
+    inputs = corpus_inputs() + tp + generated_inputs(seed, {"quick": 270, "thorough": 3000}[tier])
     seen = set()
     uniq = []
     for inp in inputs:
